@@ -144,10 +144,7 @@ Proof.
   destruct (N.eqb id (j_id h)); intros H; [inversion H; left; reflexivity | right; auto].
 Qed.
 Lemma del_job_in js id j : In j (del_job js id) -> In j js.
-Proof.
-  induction js as [|h t IH]; cbn [del_job]; [auto|].
-  destruct (N.eqb id (j_id h)); [intros H; right; exact H|]. intros [H|H]; [left; exact H | right; auto].
-Qed.
+Proof. unfold del_job. intros H. apply filter_In in H. tauto. Qed.
 
 Definition hq_of (s : st) : hq := s_hq (fst s).
 
